@@ -610,6 +610,107 @@ func c18ExportedH(x *mc.Exec, colStep int) {
 	c18Flush(fs, x, int(n))
 }
 
+// ---- magnitudes at the bottom of the float32 range ----
+
+var c18Tiny = []float32{1e-30, -1e-30, 1.17549435e-38, -1.17549435e-38, 1e-38, -9e-39, 1e-41, -1e-41, 1.4e-45, -1.4e-45, 1, -255}
+
+// c18TinyH compares assembly and portable kernels bit for bit on vectors whose
+// entries (or whose intermediate differences) are subnormal: the portable code
+// underflows gradually, so must the assembly.  The DCT-II bound is not judged
+// here (a relative bound is meaningless at the bottom of the range).
+func c18TinyH(x *mc.Exec) {
+	debug.SetPanicOnFault(true)
+	p0 := x.All("pos0", 64)
+	ki := x.All("kernel", 3) // dct64, dct256, 2-D
+	v0 := x.All("val0", len(c18Tiny))
+	fs := newFailSet([]string{"dct64.tiny", "dct256.tiny", "dct2d64.tiny"}[ki])
+	var n int64
+	cmp := func(a, g []float32, what string) {
+		for i := range a {
+			if math.Float32bits(a[i]) != math.Float32bits(g[i]) {
+				fs.add("asm!=go bitwise", fmt.Sprintf("%s: coefficient %d: asm %g (%#x) go %g (%#x)", what, i, a[i], math.Float32bits(a[i]), g[i], math.Float32bits(g[i])))
+				return
+			}
+		}
+	}
+	if !asmAvailable {
+		x.Trivial = true
+		return
+	}
+	switch ki {
+	case 0, 1:
+		k := &kerns1[ki]
+		ba, bg := guardmem.Alloc(4*k.n, true, 32), guardmem.Alloc(4*k.n, true, 32)
+		defer ba.Free()
+		defer bg.Free()
+		a, g := ba.Float32s(), bg.Float32s()
+		pos0 := p0 * k.n / 64
+		for p1 := 0; p1 < k.n; p1++ {
+			for _, v1 := range c18Tiny {
+				for i := range a {
+					a[i], g[i] = 0, 0
+				}
+				a[pos0], g[pos0] = c18Tiny[v0], c18Tiny[v0]
+				if p1 != pos0 {
+					a[p1], g[p1] = v1, v1
+				}
+				n++
+				if pi := mc.Guard(func() { k.goK(g); k.asm(a) }); pi != nil {
+					fs.add("panic|"+k.name+"|"+pi.Class, pi.Value)
+					continue
+				}
+				cmp(a, g, fmt.Sprintf("x[%d]=%g x[%d]=%g", pos0, c18Tiny[v0], p1, v1))
+			}
+		}
+	case 2:
+		ba, bg := guardmem.Alloc(4*4096, false, 32), guardmem.Alloc(4*4096, false, 32)
+		defer ba.Free()
+		defer bg.Free()
+		a, g := ba.Float32s(), bg.Float32s()
+		// first entry anywhere on a 64-position diagonal grid, second entry in the same row or column, and a dense tiny image
+		r0, c0 := p0, (p0*7)%64
+		for q := 0; q < 128; q++ {
+			for _, v1 := range c18Tiny {
+				for i := range a {
+					a[i], g[i] = 0, 0
+				}
+				a[r0*64+c0], g[r0*64+c0] = c18Tiny[v0], c18Tiny[v0]
+				var p1 int
+				if q < 64 {
+					p1 = r0*64 + q
+				} else {
+					p1 = (q-64)*64 + c0
+				}
+				if p1 != r0*64+c0 {
+					a[p1], g[p1] = v1, v1
+				}
+				n++
+				var fa, fg [64]float32
+				if pi := mc.Guard(func() { fg = transforms32.DCT2DHash64(g); fa = transforms32.VerifAsmDCT2DHash64(a) }); pi != nil {
+					fs.add("panic|dct2d|"+pi.Class, pi.Value)
+					continue
+				}
+				cmp(fa[:], fg[:], fmt.Sprintf("x[%d,%d]=%g x[%d]=%g", r0, c0, c18Tiny[v0], p1, v1))
+			}
+		}
+		// dense: a fixed noise image scaled to the value's magnitude
+		for i := range a {
+			u := float32(lcgByte(5, i%64, i/64))/255 + 0.25
+			a[i] = u * c18Tiny[v0]
+			g[i] = a[i]
+		}
+		n++
+		var fa, fg [64]float32
+		if pi := mc.Guard(func() { fg = transforms32.DCT2DHash64(g); fa = transforms32.VerifAsmDCT2DHash64(a) }); pi == nil {
+			cmp(fa[:], fg[:], fmt.Sprintf("dense noise image scaled by %g", c18Tiny[v0]))
+		}
+	}
+	x.Bulk = n - 1
+	x.Outcome = fs.prefix
+	x.InputID = hashBytes([]byte{byte(p0), byte(ki), byte(v0), 0x71})
+	fs.flush(x, int(n))
+}
+
 func init() {
 	register(&mc.Check{
 		Property: "C18",
@@ -631,6 +732,8 @@ func init() {
 					Rule: "float64 64-point kernel: support <= 2 vs DCT-II within 1e-12*L1"},
 				{Name: "float64-dct256-sparse", H: c18Sparse64(1, s256), NoLevels: true, SplitDepth: 1,
 					Rule: fmt.Sprintf("float64 256-point kernel: support <= %d vs DCT-II within 1e-12*L1", s256)},
+				{Name: "bottom-of-range", H: c18TinyH, NoLevels: true, SplitDepth: 1,
+					Rule: "assembly vs portable bitwise on vectors with one or two entries from {+-1e-30, +-min normal, subnormals down to 1.4e-45, 1, -255} (all second positions x 64 first positions) for the 64- and 256-point kernels, same-row/same-column pairs and a dense scaled noise image for the 64x64 kernel: gradual underflow must be identical"},
 				{Name: "dense-edge-vectors", H: c18Dense, NoLevels: true, SplitDepth: 1,
 					Rule: "constant, alternating, ramp vectors for each menu value, every DCT basis vector at two amplitudes, 64 fixed LCG vectors over 13 decades; 4 kernels x 2 flush positions"},
 				{Name: "exported-2d", H: c18Exported(map[bool]int{true: 1, false: 8}[tier == "thorough"]), NoLevels: true, SplitDepth: 1,
@@ -640,7 +743,7 @@ func init() {
 		Assumptions: []string{
 			"reference = direct float64 DCT-II sum in c18.go (cosine table by math.Cos)",
 			"assembly reached through the verif exports; library dispatch variables pointed at the portable kernels for the duration of the check",
-			"NaN/Inf/subnormal inputs and dense vectors outside the listed family are not enumerated",
+			"NaN/Inf inputs and dense vectors outside the listed family are not enumerated; subnormal inputs are compared bitwise only (no DCT-II bound)",
 		},
 		Extra: func(cov map[string]interface{}) {
 			cov["asm_available"] = asmAvailable
